@@ -147,6 +147,9 @@ var c20PairKinds = []struct{ Name, SQLa, SQLb, TypesB string }{
 	{"agg_arg_types", "SELECT p, sum(a + b) AS r, count(*) AS c FROM stream GROUP BY p, CountingWindow(2)", "SELECT p, max(a + b) AS r, count(*) AS c FROM stream GROUP BY p, CountingWindow(2)", "string"},
 	// expr('...'): an expression string evaluated through the process-wide bridge, per row
 	{"expr_fn", "SELECT id, a, expr('a * 2') AS d FROM stream", "SELECT id, a, expr('a * 2') AS d, expr('a + b') AS e FROM stream", "float"},
+	// two MATCH_RECOGNIZE instances; in one of them the DEFINE conditions cannot be evaluated on
+	// its rows (a string compared with a number): scratch state of the evaluator must stay apart
+	{"cep_eval_error", "SELECT * FROM stream MATCH_RECOGNIZE ( ORDER BY ts MEASURES MATCH_NUMBER() AS mn, COUNT(*) AS n, FIRST(id) AS fid, LAST(id) AS lid ONE ROW PER MATCH PATTERN (A+ B) DEFINE A AS a > 2, B AS a <= 2 )", "SELECT * FROM stream MATCH_RECOGNIZE ( ORDER BY ts MEASURES MATCH_NUMBER() AS mn, COUNT(*) AS n, FIRST(id) AS fid, LAST(id) AS lid ONE ROW PER MATCH PATTERN (A+ B) DEFINE A AS a > 2 AND b > 0, B AS a <= 2 )", "string"},
 	// near twins: different queries whose expression texts differ only in letter case or spacing
 	// (process-wide caches keyed by a normalised form of the text would confuse them)
 	{"near_literal_case", "SELECT id, concat(s, '-Alert') AS t FROM stream", "SELECT id, concat(s, '-alert') AS t FROM stream", "int"},
@@ -230,6 +233,7 @@ func genC20Paired(rng *simrt.Rand, tier string) *Case {
 	mk := func(i int, types string) Row {
 		a, b := rng.Intn(6), rng.Intn(6)
 		row := Row{"id": fmt.Sprintf("r%03d", i), "p": []any{"x", "y"}[rng.Intn(2)], "s": []string{"ab", "Cd", "Ab", "abc"}[rng.Intn(4)]}
+		row["ts"] = i + 1
 		row["Site"], row["site"], row["B"] = fmt.Sprintf("up%d", rng.Intn(3)), fmt.Sprintf("lo%d", rng.Intn(3)), 10+rng.Intn(5)
 		switch types {
 		case "float":
@@ -244,7 +248,7 @@ func genC20Paired(rng *simrt.Rand, tier string) *Case {
 	var opsA, opsB []Op
 	for i := 0; i < n; i++ {
 		k := "emitsync"
-		if strings.Contains(kind.SQLa, "Window(") {
+		if strings.Contains(kind.SQLa, "Window(") || strings.Contains(kind.SQLa, "MATCH_RECOGNIZE") {
 			k = "emit" // aggregation queries only take Emit; their sinks carry the output
 		}
 		opsA = append(opsA, Op{K: k, I: 0, Row: mk(i, "int"), Tag: fmt.Sprintf("r%03d", i)})
@@ -492,8 +496,14 @@ func (c20) PostRun(c *Case, r *Result) {
 			r.Infra = fmt.Sprintf("solo run %d produced no result", i)
 			return
 		}
-		want := fmt.Sprint(soloRes.Summary["out0"])
-		got := fmt.Sprint(r.Summary[fmt.Sprintf("out%d", i)])
+		norm := func(v any) string { // no output at all: an empty list here, null after the JSON round trip
+			if s := fmt.Sprint(v); s != "<nil>" {
+				return s
+			}
+			return "[]"
+		}
+		want := norm(soloRes.Summary["out0"])
+		got := norm(r.Summary[fmt.Sprintf("out%d", i)])
 		r.Oblig++
 		if r.Probes != nil {
 			r.Probes["solo_compared"]++
